@@ -5,6 +5,7 @@ mod bridge;
 mod formulas;
 mod nets;
 mod oracle;
+mod refparser;
 mod props;
 mod report;
 mod sem;
@@ -24,6 +25,7 @@ fn replayer_for(id: &str) -> fn(&Value) -> Option<String> {
 pub fn generic_replay(case: &Value) -> Option<String> {
     match case.get("kind").and_then(|k| k.as_str()) {
         Some("sem") => sem::replay(case),
+        Some("parse") => props::c05::replay(case),
         other => Some(format!("unknown replay kind {other:?}")),
     }
 }
@@ -70,6 +72,7 @@ fn main() {
         "C01" => props::c01::run(tier),
         "C02" => props::c02::run(tier),
         "C03" => props::c03::run(tier),
+        "C05" => props::c05::run(tier),
         "C13" => props::c13::run(tier),
         _ => {
             eprintln!("unknown property {id}");
